@@ -3,7 +3,7 @@
 From Coq Require Import List NArith ZArith Bool Arith Lia ZifyBool ZifyNat ZifyN.
 From Coq Require Import Sorting.Permutation Sorting.Sorted.
 From Coq Require Import Strings.Byte.
-Require Import CU.model.Prim CU.model.Types CU.model.Unicode CU.model.Codec CU.model.Card CU.model.Dates CU.model.Iso.
+Require Import CU.model.Prim CU.model.Types CU.model.Unicode CU.model.Regex CU.model.Codec CU.model.Card CU.model.Dates CU.model.Iso.
 Require Import CU.spec.IsoSpec CU.proofs.NumProofs CU.proofs.PdsProofs.
 Require CU.gen.GenConfig CU.gen.GenCodec.
 Import ListNotations.
@@ -239,6 +239,9 @@ Definition ir_dec_len (c : fieldcfg) (fl0 : nat) (data : bytes) (cd : codec) : r
     end
   else Ok fl0.
 
+(* the entry a named group of the DE43 splitting pattern adds *)
+Definition ir_d43_ent (nv : str * str) : key * value := (KOther (fst nv), VStr (snd nv)).
+
 Definition ir_tail (bit : nat) (c : fieldcfg) (fl : nat) (data : bytes) (cd : codec) : result (dict * nat) :=
   let ls := psize (f_type c) in
   let raw := slice ls (ls + fl) data in
@@ -259,6 +262,18 @@ Definition ir_tail (bit : nat) (c : fieldcfg) (fl : nat) (data : bytes) (cd : co
       match v with
       | VStr t => do sub <- pds_to_dict t; Ok (dupdate [(KDE bit, v)] sub, fl + ls)
       | _ => Unmodelled
+      end
+    | PDE43 =>
+      match v with
+      | VStr t =>
+        match de43_fields (f_de43 c) t with
+        | Some gs => Ok (dupdate [(KDE bit, v)] (map ir_d43_ent gs), fl + ls)
+        | None => Unmodelled
+        end
+      | _ => match f_de43 c with
+             | D43None => Ok ([(KDE bit, v)], fl + ls)
+             | _ => Raise EType
+             end
       end
     | _ => Ok ([(KDE bit, v)], fl + ls)
     end
@@ -441,6 +456,8 @@ Definition ir_fent (bit : nat) (c : fieldcfg) (v : value) (es : dict) : Prop :=
   match f_proc c with
   | PPDS => exists s sub, v = VStr s /\ pds_to_dict s = Ok sub /\ es = dupdate [(KDE bit, v)] sub
   | PICC => exists b sub, v = VBytes b /\ icc_to_dict b = Ok sub /\ es = dupdate [(KDE bit, v)] sub
+  | PDE43 => exists gs, match v with VStr t => de43_fields (f_de43 c) t = Some gs | _ => gs = [] end /\
+                        es = dupdate [(KDE bit, v)] (map ir_d43_ent gs)
   | _ => es = [(KDE bit, ir_fexp c v)]
   end.
 
@@ -453,9 +470,10 @@ Lemma ir_str_field : forall cd bit c fl0 s, codec_okb cd = true -> ir_digits_enc
   f_len c = Some fl0 -> f_ptype c = PTStr -> f_proc c <> PICC ->
   encodable cd s = true -> len_okb c (length s) = true ->
   (f_proc c = PPDS -> exists sub, pds_to_dict s = Ok sub) ->
+  (f_proc c = PDE43 -> exists gs, de43_fields (f_de43 c) s = Some gs) ->
   ir_rt bit c (VStr s) cd fl0 (ir_enc_str c s cd).
 Proof.
-  intros cd bit c fl0 s Hcd Hdig Hfl Hpt Hicc Henc Hlen Hpds.
+  intros cd bit c fl0 s Hcd Hdig Hfl Hpt Hicc Henc Hlen Hpds Hd43.
   destruct (ir_text_rt cd c fl0 s Hcd Hdig Hfl Henc Hlen) as [e [He [Hel Hrest]]].
   exists e. split; [exact He|]. intros rest. destruct (Hrest rest) as [Hd Hs].
   rewrite Hd. cbn [bind]. unfold ir_tail. cbv zeta. rewrite Hs. rewrite Hel.
@@ -467,11 +485,12 @@ Proof.
   - contradiction Hicc. reflexivity.
   - destruct (Hpds eq_refl) as [sub Hsub]. rewrite Hsub. cbn [bind].
     eexists. split; [reflexivity|]. exists s, sub. auto.
-  - eexists. split; reflexivity.
+  - destruct (Hd43 eq_refl) as [gs Hgs]. rewrite Hgs.
+    eexists. split; [reflexivity|]. exists gs. auto.
 Qed.
 
 Lemma ir_int_field : forall cd bit c fl0 z, codec_okb cd = true -> ir_digits_enc cd ->
-  f_len c = Some fl0 -> f_ptype c = PTInt -> (f_proc c = PNone \/ f_proc c = PDE43) ->
+  f_len c = Some fl0 -> f_ptype c = PTInt -> (f_proc c = PNone \/ (f_proc c = PDE43 /\ f_de43 c = D43None)) ->
   (0 <= z)%Z -> encodable cd (fmt0Z fl0 z) = true -> len_okb c (length (fmt0Z fl0 z)) = true ->
   ir_rt bit c (VInt z) cd fl0 (ir_enc_str c (fmt0Z fl0 z) cd).
 Proof.
@@ -480,12 +499,13 @@ Proof.
   exists e. split; [exact He|]. intros rest. destruct (Hrest rest) as [Hd Hs].
   rewrite Hd. cbn [bind]. unfold ir_tail. cbv zeta. rewrite Hs. rewrite Hel.
   unfold ir_fent, ir_fexp, string_to_pytype. rewrite Hpt.
-  destruct Hproc as [Ep|Ep]; rewrite Ep; cbn [catch bind]; rewrite (py_int_fmt0Z fl0 z Hz);
-    cbn [catch bind]; eexists; split; reflexivity.
+  destruct Hproc as [Ep|[Ep Ed]]; rewrite Ep; cbn [catch bind]; rewrite (py_int_fmt0Z fl0 z Hz);
+    cbn [catch bind]; [eexists; split; reflexivity|].
+  rewrite Ed. eexists. split; [reflexivity|]. exists []. auto.
 Qed.
 
 Lemma ir_date_field : forall cd bit c fl0 d t, codec_okb cd = true -> ir_digits_enc cd ->
-  f_len c = Some fl0 -> f_ptype c = PTDate -> (f_proc c = PNone \/ f_proc c = PDE43) ->
+  f_len c = Some fl0 -> f_ptype c = PTDate -> (f_proc c = PNone \/ (f_proc c = PDE43 /\ f_de43 c = D43None)) ->
   wf_dateb (f_datefmt c) d = true -> strftime_m (f_datefmt c) d = Ok t ->
   encodable cd t = true -> len_okb c (length t) = true ->
   ir_rt bit c (VDate d) cd fl0 (ir_enc_str c t cd).
@@ -495,9 +515,10 @@ Proof.
   exists e. split; [exact He|]. intros rest. destruct (Hrest rest) as [Hd Hs].
   rewrite Hd. cbn [bind]. unfold ir_tail. cbv zeta. rewrite Hs. rewrite Hel.
   unfold ir_fent, ir_fexp, string_to_pytype. rewrite Hpt.
-  destruct Hproc as [Ep|Ep]; rewrite Ep; cbn [catch bind];
+  destruct Hproc as [Ep|[Ep Ed]]; rewrite Ep; cbn [catch bind];
     rewrite (strptime_strftime _ _ _ Hwd Hst);
-    cbn [catch bind]; eexists; split; reflexivity.
+    cbn [catch bind]; [eexists; split; reflexivity|].
+  rewrite Ed. eexists. split; [reflexivity|]. exists []. auto.
 Qed.
 
 Lemma ir_icc_field : forall cd bit c fl0 b sub, codec_okb cd = true -> ir_digits_enc cd ->
@@ -511,6 +532,28 @@ Proof.
   rewrite Hd. cbn [bind]. unfold ir_tail. cbv zeta. rewrite Hs. rewrite Hel.
   unfold ir_fent. rewrite Hproc, Hpt, Hsub. cbn [bind].
   eexists. split; [reflexivity|]. exists b, sub. auto.
+Qed.
+
+Lemma ir_de43_modelled : forall d s, de43_modelledb d = true -> exists gs, de43_fields d s = Some gs.
+Proof.
+  intros d s H. destruct d as [|p|]; cbn [de43_fields]; [eexists; reflexivity| |discriminate].
+  destruct (re_match p s); eexists; reflexivity.
+Qed.
+
+Lemma ir_de43_noneb : forall d, de43_noneb d = true -> d = D43None.
+Proof. intros d H. destruct d; try discriminate. reflexivity. Qed.
+
+(* the entries of a DE43 element are named after the groups of its pattern *)
+Lemma ir_de43_fields_groups : forall d s gs n x, de43_fields d s = Some gs -> In (n, x) gs ->
+  exists p, d = D43Re p /\ In n (regex_groups p).
+Proof.
+  intros d s gs n x H Hin. destruct d as [|p|]; cbn [de43_fields] in H; [| |discriminate].
+  - inversion H; subst gs. destruct Hin.
+  - exists p. split; [reflexivity|]. destruct (re_match p s) as [cp|].
+    + inversion H; subst gs. apply in_flat_map in Hin. destruct Hin as [g [Hg Hin]].
+      destruct (cap_get cp g) as [[a b]|]; [|destruct Hin].
+      destruct Hin as [Hin|[]]. inversion Hin; subst. exact Hg.
+    + inversion H; subst gs. destruct Hin.
 Qed.
 
 Lemma ir_is_ok : forall {A} (r : result A), is_ok r = true -> exists a, r = Ok a.
@@ -536,6 +579,8 @@ Proof.
             (split; [discriminate|]); (split; [assumption|]); (split; [assumption|]);
             try (intro; discriminate).
           intros _. apply ir_is_ok. assumption. }
+        assert (H7 : f_proc c = PDE43 -> exists gs, de43_fields (f_de43 c) s = Some gs).
+        { intros Ep. rewrite Ep in Hwf. apply ir_de43_modelled. exact Hwf. }
         destruct H3 as [H3 [H4 [H5 H6]]]. apply ir_str_field; assumption.
       + cbn [bind].
         destruct (f_proc c) eqn:Ep; try discriminate.
@@ -546,7 +591,7 @@ Proof.
       apply andb_true_iff in Hv. destruct Hv as [Hv H3].
       apply andb_true_iff in Hv. destruct Hv as [H1 H2]. apply Z.leb_le in H1.
       apply ir_int_field; try assumption.
-      destruct (f_proc c); try discriminate; auto.
+      destruct (f_proc c); try discriminate; auto using ir_de43_noneb.
     - discriminate.
     - destruct v as [s|z|b|d]; try discriminate.
       apply andb_true_iff in Hv. destruct Hv as [H1 H2].
@@ -554,7 +599,9 @@ Proof.
       cbn [bind].
       apply andb_true_iff in H2. destruct H2 as [H2 H3].
       apply (ir_date_field cd bit c fl0 d t); try assumption.
-      destruct (f_proc c); try discriminate; auto. }
+      unfold de43_for_text in Hwf.
+      destruct (f_proc c); try discriminate; auto.
+      right. split; [reflexivity|]. apply andb_true_iff in Hwf. apply ir_de43_noneb. apply Hwf. }
   destruct G as [e [He Hrest]]. exists e. split; [exact He|].
   intros rest. rewrite ir_iso_to_field_eq, Hfl. apply Hrest.
 Qed.
@@ -567,6 +614,8 @@ Proof.
     subst v. inversion A2; subst b2. congruence.
   - destruct H1 as [b1 [s1 [A1 [B1 C1]]]]. destruct H2 as [b2 [s2 [A2 [B2 C2]]]].
     subst v. inversion A2; subst b2. congruence.
+  - destruct H1 as [g1 [A1 B1]]. destruct H2 as [g2 [A2 B2]].
+    assert (g1 = g2) by (destruct v; congruence). congruence.
 Qed.
 
 Lemma ir_len_okb_0 : forall c, len_okb c 0 = false.
@@ -764,11 +813,14 @@ Lemma ir_fent_in : forall bit c v es k x, ir_fent bit c v es -> In (k, x) es ->
   (k = KDE bit /\ x = ir_fexp c v) \/
   (f_proc c = PPDS /\ is_pds_key k = true /\
    exists s sub, v = VStr s /\ pds_to_dict s = Ok sub /\ In (k, x) sub) \/
-  ir_tag_key k = true.
+  ir_tag_key k = true \/
+  (exists p n, f_proc c = PDE43 /\ f_de43 c = D43Re p /\ k = KOther n /\ In n (regex_groups p)).
 Proof.
   intros bit c v es k x Hf Hin. unfold ir_fent in Hf.
   assert (Hpds : f_proc c = PPDS -> forall s, ir_fexp c (VStr s) = VStr s).
   { intros E s. unfold ir_fexp. rewrite E. reflexivity. }
+  assert (Hd43 : f_proc c = PDE43 -> ir_fexp c v = v).
+  { intros E. unfold ir_fexp. rewrite E. destruct v; reflexivity. }
   destruct (f_proc c) eqn:Ep.
   - subst es. destruct Hin as [Hin|[]]. inversion Hin; subst. left. split; reflexivity.
   - subst es. destruct Hin as [Hin|[]]. inversion Hin; subst. left. split; reflexivity.
@@ -776,14 +828,22 @@ Proof.
   - destruct Hf as [b [sub [Hv [Hsub Hes]]]]. subst es v.
     apply ir_in_dupdate in Hin. destruct Hin as [Hin|Hin].
     + destruct Hin as [Hin|[]]. inversion Hin; subst. left. split; reflexivity.
-    + right. right. apply (ir_icc_to_dict_keys _ _ Hsub _ _ Hin).
+    + right. right. left. apply (ir_icc_to_dict_keys _ _ Hsub _ _ Hin).
   - destruct Hf as [s [sub [Hv [Hsub Hes]]]]. subst es v.
     apply ir_in_dupdate in Hin. destruct Hin as [Hin|Hin].
     + destruct Hin as [Hin|[]]. inversion Hin; subst. left. split; [reflexivity|].
       symmetry. apply Hpds. reflexivity.
     + right. left. split; [reflexivity|]. split; [apply (ir_pds_to_dict_keys _ _ Hsub _ _ Hin)|].
       exists s, sub. auto.
-  - subst es. destruct Hin as [Hin|[]]. inversion Hin; subst. left. split; reflexivity.
+  - destruct Hf as [gs [Hgs Hes]]. subst es.
+    apply ir_in_dupdate in Hin. destruct Hin as [Hin|Hin].
+    + destruct Hin as [Hin|[]]. inversion Hin; subst. left. split; [reflexivity|].
+      symmetry. apply Hd43. reflexivity.
+    + right. right. right. apply in_map_iff in Hin. destruct Hin as [[n y] [E Hin]].
+      unfold ir_d43_ent in E. cbn [fst snd] in E. inversion E; subst k x.
+      destruct v as [t| | |]; try (subst gs; destruct Hin).
+      destruct (ir_de43_fields_groups _ _ _ _ _ Hgs Hin) as [p [Hp1 Hp2]].
+      exists p, n. auto.
 Qed.
 
 Lemma ir_carrier_kde : forall bit v sub, (forall k x, In (k, x) sub -> k <> KDE bit) ->
@@ -804,6 +864,10 @@ Proof.
     intros k x Hin C. subst k. pose proof (ir_icc_to_dict_keys _ _ Hsub _ _ Hin) as T. discriminate.
   - destruct Hf as [s [sub [Hv [Hsub Hes]]]]. subst es v. rewrite (Hpds eq_refl). apply ir_carrier_kde.
     intros k x Hin C. subst k. pose proof (ir_pds_to_dict_keys _ _ Hsub _ _ Hin) as T. discriminate.
+  - destruct Hf as [gs [_ Hes]]. subst es.
+    assert (E : ir_fexp c v = v) by (unfold ir_fexp; rewrite Ep; destruct v; reflexivity).
+    rewrite E. apply ir_carrier_kde.
+    intros k x Hin C. subst k. apply in_map_iff in Hin. destruct Hin as [nv [T _]]. discriminate.
 Qed.
 
 Lemma ir_fent_sub : forall bit c s es sub k x, ir_fent bit c (VStr s) es -> f_proc c = PPDS ->
@@ -870,21 +934,26 @@ Proof.
   assert (HE : forall k x, In (k, x) (concat ents) ->
             (exists b c v, In b bit_range /\ cfg_get cfg b = Some c /\ lookup m1 (KDE b) = Some v /\
                            k = KDE b /\ x = ir_fexp c v) \/
-            is_pds_key k = true \/ ir_tag_key k = true).
+            is_pds_key k = true \/ ir_tag_key k = true \/
+            (exists s, k = KOther s /\ de43_key cfg s = true)).
   { intros k x Hin.
     destruct (ir_forall2_concat_in _ _ _ _ Hents Hin) as [b [es [Hb [[c [v [Hc [Hv Hf]]]] Hx]]]].
     apply filter_In in Hb. destruct Hb as [Hb _].
-    destruct (ir_fent_in _ _ _ _ _ _ Hf Hx) as [[K1 K2]|[[_ [K _]]|K]].
+    destruct (ir_fent_in _ _ _ _ _ _ Hf Hx) as [[K1 K2]|[[_ [K _]]|[K|[p [s [Kp [Kd [Kk Kg]]]]]]]].
     - left. exists b, c, v. auto.
     - right. left. exact K.
-    - right. right. exact K. }
+    - right. right. left. exact K.
+    - right. right. right. exists s. split; [exact Kk|].
+      unfold de43_key. apply existsb_exists. exists (b, c). split; [apply ir_cfg_get_in; exact Hc|].
+      cbn [snd]. rewrite Kp, Kd. cbn [proc_eqb andb]. apply existsb_exists. exists s. split; [exact Kg|].
+      apply ir_str_eqb_eq. reflexivity. }
   split.
   - intros k v Hl. pose proof (ir_lookup_in _ _ _ Hl) as Hin. pose proof (Hent _ _ Hin) as Hw.
     destruct k as [|n|t|t| |t]; cbn [wf_entryb] in Hw; try discriminate.
     + (* MTI *)
       rewrite Hmti in Hl. inversion Hl; subst v. unfold d. rewrite ir_lookup_dupdate_notin.
       * cbn [lookup key_eqb expected]. reflexivity.
-      * intros x Hx. destruct (HE _ _ Hx) as [[b [c [v [_ [_ [_ [K _]]]]]]]|[K|K]]; discriminate.
+      * intros x Hx. destruct (HE _ _ Hx) as [[b [c [v [_ [_ [_ [K _]]]]]]]|[K|[K|[s [K _]]]]]; discriminate.
     + (* DE n *)
       apply andb_true_iff in Hw. destruct Hw as [Hw Hw3].
       apply andb_true_iff in Hw. destruct Hw as [Hw1 Hw2].
@@ -900,7 +969,7 @@ Proof.
       rewrite Hc in Hc'. inversion Hc'; subst c'. rewrite Hl1 in Hv'. inversion Hv'; subst v'.
       unfold d. apply ir_lookup_dupdate_unique.
       * apply Hsub. apply (ir_fent_kde _ _ _ _ Hf).
-      * intros x Hx. destruct (HE _ _ Hx) as [[b [c2 [v2 [_ [Hc2 [Hv2 [K1 K2]]]]]]]|[K|K]]; try discriminate.
+      * intros x Hx. destruct (HE _ _ Hx) as [[b [c2 [v2 [_ [Hc2 [Hv2 [K1 K2]]]]]]]|[K|[K|[s [K _]]]]]; try discriminate.
         inversion K1; subst b. rewrite Hc in Hc2. inversion Hc2; subst c2.
         rewrite Hl1 in Hv2. inversion Hv2; subst v2. exact K2.
     + (* PDS t *)
@@ -909,13 +978,14 @@ Proof.
   - intros k Hk. destruct (lookup d k) as [x|] eqn:El; [|contradiction Hk; reflexivity].
     apply ir_lookup_in in El. unfold d in El. apply ir_in_dupdate in El. destruct El as [El|El].
     + destruct El as [El|[]]. inversion El; subst. left. rewrite Hmti. discriminate.
-    + destruct (HE _ _ El) as [[b [c [v [_ [Hc [Hv [K1 K2]]]]]]]|[K|K]].
+    + destruct (HE _ _ El) as [[b [c [v [_ [Hc [Hv [K1 K2]]]]]]]|[K|[K|[s [K1 K2]]]]].
       * subst k. destruct (proc_eqb (f_proc c) PPDS) eqn:Ep.
         -- right. cbn [derived_key]. rewrite Hc. exact Ep.
         -- left. rewrite <- (H4 b c Hc); [rewrite Hv; discriminate|].
            intro C. rewrite C in Ep. discriminate.
       * right. destruct k; try discriminate. reflexivity.
       * right. destruct k; try discriminate; reflexivity.
+      * right. subst k. cbn [derived_key]. exact K2.
 Qed.
 
 (* ====================================================================== the message: decomposition of wf_msgb *)
@@ -1432,7 +1502,7 @@ Proof.
         subst tv'. reflexivity.
     + intros x Hx.
       destruct (ir_forall2_concat_in _ _ _ _ Hents Hx) as [b [es [Hb [[c [v [Hc [Hv Hfe]]]] Hxe]]]].
-      destruct (ir_fent_in _ _ _ _ _ _ Hfe Hxe) as [[K _]|[[Hp [_ [s [sub [Ev [Hsub Hxs]]]]]]|K]];
+      destruct (ir_fent_in _ _ _ _ _ _ Hfe Hxe) as [[K _]|[[Hp [_ [s [sub [Ev [Hsub Hxs]]]]]]|[K|[p0 [s0 [_ [_ [K _]]]]]]]];
         try discriminate.
       subst v. destruct (Hcar_of b c _ Hc Hp Hv) as [g' [Hg' Eg']]. inversion Eg'; subst s.
       destruct (Hgrp g' Hg') as [G1' [G2' [G3' G4']]]. rewrite G3' in Hsub. inversion Hsub; subst sub.
